@@ -199,6 +199,12 @@ class ClientGenerator:
                         (tmp_ancestor / "__init__.py").touch()
                         tmp_ancestor = tmp_ancestor.parent
 
+                # A shared core keeps a registry of the error codes every client needs; the comparison tree must start
+                # from it, or its exception aliases would lack the classes of the other clients
+                existing_registry = core_dir / ".exception_registry.json"
+                if existing_registry.is_file():
+                    shutil.copyfile(str(existing_registry), str(tmp_core_dir_for_diff / ".exception_registry.json"))
+
                 # --- Generate files into the temporary structure ---
                 temp_generated_files = []  # Track files generated in temp dir
 
